@@ -135,6 +135,8 @@ class Check:
             "known_findings_hit": self.known_hits,
             "inconclusive_traces": self.inconclusive[:10],
             "exhaustive": bool(self.exhaustive_parts),
+            "exhaustive_scope": "the bounded TLA+ instances listed in exhaustive_parts were enumerated completely by TLC on this run; "
+                                "what was replayed on / recorded from the implementation is described in rule and may be a sample of them",
             "exhaustive_parts": self.exhaustive_parts,
             "tlc": "TLC2 (tla2tools 1.8.0), CommunityModules; traces validated by TLC, not by Python",
         }
